@@ -15,6 +15,7 @@ var WPlusKinds = []string{
 	"dangling-remote-fragment",           // unresolvable
 	"dangling-pointer",                   // unresolvable
 	"dangling-pointer-to-absent-keyword", // unresolvable
+	"dangling-ref-in-simple-items",       // unresolvable
 	"back-reference-to-root",
 	"pointer-to-operation-schema",
 	"pointer-to-nested-inline",
@@ -31,7 +32,7 @@ var WPlusKinds = []string{
 
 func Unresolvable(kind string) bool {
 	switch kind {
-	case "dangling-local-definition", "dangling-remote-file", "dangling-remote-fragment", "dangling-pointer", "dangling-pointer-to-absent-keyword":
+	case "dangling-local-definition", "dangling-remote-file", "dangling-remote-fragment", "dangling-pointer", "dangling-pointer-to-absent-keyword", "dangling-ref-in-simple-items":
 		return true
 	}
 	return false
@@ -160,6 +161,21 @@ func GenWPlusCase(d *D, cfg BundleCfg, allowed []string) *WPlusCase {
 				"parameters": A{O{"name": "q", "in": "query", "type": "array", "items": O{"$ref": "#/definitions/simpleItem"}}},
 				"responses":  O{"200": O{"description": "w"}},
 			}}
+		case "dangling-ref-in-simple-items":
+			paths := Obj(root["paths"])
+			if paths == nil {
+				paths = O{}
+				root["paths"] = paths
+			}
+			bad := O{"$ref": d.Pick([]string{"#/definitions/nowhere", "gone.json#/definitions/x"})}
+			if d.Bool() {
+				paths[fmt.Sprintf("/wplus%d", i)] = O{"get": O{
+					"parameters": A{O{"name": "q", "in": "query", "type": "array", "items": bad}},
+					"responses":  O{"200": O{"description": "w"}},
+				}}
+			} else {
+				paths[fmt.Sprintf("/wplus%d", i)] = O{"get": O{"responses": O{"200": O{"description": "w", "headers": O{"X-L": O{"type": "array", "items": bad}}}}}}
+			}
 		case "whole-document-schema-ref":
 			c.Aux["other/whole.json"] = O{"type": "object", "properties": O{"w": O{"type": "string"}}}
 			holderPath(root, i, O{"$ref": "other/whole.json"})
